@@ -36,6 +36,12 @@ func runC02(c *core.Ctx) {
 	c.MinInstances("C02-ENDIAN", 40)
 	c.MinInstances("C02-LEN-HAND", 12)
 	c.MinInstances("C02-LEN-PREFIX", 3)
+	c.MinInstances("C02-PRIM", 20)
+	c.MinInstances("C02-OPTS", 40)
+	importRules(c, "C20", "C02-PRIM", func(o core.Obligation) bool {
+		return o.Rule == "C20-SHAPE" || o.Rule == "C20-COUNT" || o.Rule == "C20-TERMINAL"
+	})
+	importRules(c, "C16", "C02-OPTS", func(o core.Obligation) bool { return o.Rule != "C16-ADD" && o.Rule != "C16-ACCESSOR" })
 	c.Trust("E2 spec tables (hand transcription of SMPP 3.4, CMPP 2.0/3.0, SGIP 1.2, SMGP 3.0.3; DESIGN.md Appendix A)", "go/types constant evaluation")
 	c.NotDecided("octet-for-octet equality on concrete values", "C-string maximum lengths (the encoder does not enforce them; not part of the layout)")
 	for _, p := range ps.list {
